@@ -463,6 +463,34 @@ fn collect_component_locations_nested(
     out
 }
 
+/// The locations of the composite glyphs reachable through `glyph`'s components.
+///
+/// Simple glyphs are not followed: they remain components after flattening and
+/// keep their own variation.
+fn collect_nested_composite_locations(
+    context: &Context,
+    glyph: &Glyph,
+) -> HashSet<NormalizedLocation> {
+    let mut out = HashSet::new();
+    let mut seen = HashSet::new();
+    let mut todo = glyph.component_names().cloned().collect::<Vec<_>>();
+
+    while let Some(next) = todo.pop() {
+        if seen.insert(next.clone()) {
+            let Some(nextg) = context.try_get_glyph(next) else {
+                // component is missing, we log this elsewhere
+                continue;
+            };
+            if nextg.default_instance().components.is_empty() {
+                continue;
+            }
+            out.extend(nextg.sources().keys().cloned());
+            todo.extend(nextg.component_names().cloned());
+        }
+    }
+    out
+}
+
 /// Convert a glyph with contours and components to a contour-only, aka simple, glyph
 ///
 /// At time of writing we only support this if every instance uses the same set of components.
@@ -653,6 +681,10 @@ fn flatten_glyph(context: &Context, glyph: &Glyph) -> Result<(), BadGlyph> {
         glyph.default_instance().components
     );
     let mut glyph = glyph.clone();
+    // A nested composite that is flattened away takes the variation of its own
+    // component offsets with it, unless this glyph is defined wherever it is.
+    let nested_locations = collect_nested_composite_locations(context, &glyph);
+    batch_interpolate_missing(&mut glyph, nested_locations.iter(), context)?;
     for (loc, inst) in glyph.sources_mut() {
         let mut simple = Vec::new();
         let mut frontier = VecDeque::new();
